@@ -150,6 +150,7 @@ func runC12(c *core.Ctx) core.Meta {
 	checkNoCountdownBeforeImmediateRetire(c, "R12.23", pd)
 	checkParkedRequestsReleasedAtZero(c, pd)
 	checkLaunchPathsMarkDirty(c, "R12.25", pd)
+	checkDirtyMarkUnconditional(c, "R12.26")
 	checkAppendToOwnField(c, "R12.22", "The command processor flushes and invalidates the caches on its lists before a copy that touches a dirty buffer: a cache that is on no list keeps stale lines, and the kernel after the copy does not see what the copy wrote.", 8, NewPkgInfo(c, r9nanoPkg), NewPkgInfo(c, mi300aPkg), NewPkgInfo(c, tconfigPkg))
 	checkNoCompactionWhileRanging(c, "R12.21", 7, pd)
 	prov := core.NewLocalProv(c)
@@ -1079,6 +1080,7 @@ func runC12(c *core.Ctx) core.Meta {
 	// ---------------- R12.10 thread-shared fields, discovered (c12shared.go) ----------------
 	checkSharedFields(c, pd)
 
+	checkIntegerWidths(c, "R12.27", "Addresses and sizes in the driver are not narrowed, widened after they could wrap, or clamped by an unsigned difference.", 5, []widthScope{{rel: driverPkg}}, []string{"narrow", "widen-wrapped", "unsigned-diff", "unsigned-bound-minus-one"}, widthAllowDriver)
 	return core.Meta{Level: "other",
 		Explanation: "Structural conditions whose absence is the lost wake-up, the data race or the reordering, decided on SSA of amd/driver: capacity of channels targeted by non-blocking sends, the subscribe/test/wait/re-test shape of the drain loop, a guarded-by lockset analysis for five field/mutex pairs, no mixed atomic/plain access, FIFO ownership of the command list, one command at a time per queue (start guard, IsRunning pairing), the frozen inventory of goroutines, selects, engine runs and signal receivers, and the hand-off between runAsync and runEngine (a run request recorded while the engine is flagged as running is honoured before the flag is cleared).",
 		NotDecided:  "liveness under all interleavings (a model-checking question); memory effects between commands",
